@@ -20,7 +20,7 @@ for p in sorted(glob.glob(os.path.join(V, "seeded", "*", "meta.json"))):
 n_first = sum(1 for r in rows if "| caught (" in r)
 n_after = sum(1 for r in rows if "MISSED at first run →" in r)
 n_miss = len(rows) - n_first - n_after
-summary = (f"Totals: {len(rows)} seeded changes in six waves; {n_first} caught by the quick tier as the checks stood when the change "
+summary = (f"Totals: {len(rows)} seeded changes in seven waves; {n_first} caught by the quick tier as the checks stood when the change "
            f"was written, {n_after} missed at first and caught after the named strengthening, {n_miss} still missed.\n\n")
 table = ("### Seeded changes (independent sub-agents, given only the property text) and which check catches them\n\n"
          "Each change compiles, passes the tlx tests named in its `meta.json`, and its demonstration fails with the\n"
